@@ -106,6 +106,41 @@ def bigindex_sessions(rnd, n):
     return out
 
 
+def tiling_sessions(rnd, n):
+    """Fragmented writes whose value is an exact multiple (2x, 3x) of what one fragment carries, and one element more / less:
+    the payload of a fragment depends on the way the tag is addressed, so a dry run measures it first (offset field of the
+    second fragment of a long write)."""
+    from .. import session
+    out = []
+    for i in range(n):
+        pol = ["LargeRefused", "LargeOK"][i % 2]
+        code, es = [(0xC2, 1), (0xC3, 2), (0xC4, 4)][i % 3]
+        nm = rnd.choice(["TL", "Tile_With_A_Longer_Name"])
+        big = [{"name": nm, "code": code, "dims": [13000 // es]}, {"name": "k", "code": 0xC4, "dims": []}]
+        sc = logix_rw.session(rnd, 1300 + i, prefix="tile", n_calls=0, big=big, policy=pol, caps=False, n_tags=1)
+        sc["calls"] = [{"api": "open"}, S.write_call([R([(nm, [])], count=13000 // es, value=[0] * (13000 // es))]), {"api": "close"}]
+        offs, seen = [], 0
+        for e in session.run_scenario(sc)["events"]:
+            b = e.get("b")
+            if e["k"] == "tx" and b and b[0] == 0x70 and len(b) > 60 and b[46] == 0x53:
+                o = 48 + 2 * b[47] + 4
+                offs.append(b[o] | b[o + 1] << 8 | b[o + 2] << 16 | b[o + 3] << 24)
+        if len(offs) < 2 or offs[1] % es:
+            continue
+        L = offs[1] // es               # elements per fragment
+        calls = [{"api": "open"}]
+        for cnt in (2 * L, 3 * L, 2 * L + 1, 2 * L - 1, L):
+            vals = [rnd.randint(1, 100) for _ in range(cnt)]
+            rd = S.read_call([R([(nm, [])], count=cnt + 2)])
+            calls += [S.write_call([R([(nm, [])], count=cnt, value=vals)]), rd,
+                      S.write_call([R([(nm, [])], count=cnt, value=vals[::-1]), R([("k", [])], value=cnt)]), rd]
+        calls.append({"api": "close"})
+        sc["calls"] = calls
+        sc["family"] = "logix-tiling"
+        out.append(sc)
+    return out
+
+
 def families(ctx, rnd, thorough, which):
     scs = []
     if "rw" in which:
@@ -148,6 +183,8 @@ def families(ctx, rnd, thorough, which):
         sc["family"] = "logix-slow-target"
         sc["budget"] = 20000
         scs.append(sc)
+    if "long" in which or "window" in which:
+        scs += tiling_sessions(rnd, 6 if thorough else 2)
     if "window" in which:
         scs += window_sessions(rnd, 300 if thorough else 21, thorough)
     if "invalid" in which:
